@@ -71,4 +71,20 @@ TEXTS["C05"] = dict(
                "no attestation/proposal signature under a foreign type (state untouched by such refusals), voluntary-exit only for a listed source. The rule itself has no "
                "schedule in it; what simulation adds is the batch endpoints under real worker parallelism, the error-path configurations and the check on the real store.",
     level_note=TRUST + " The schedule dimension is vacuous for this property (stated in DESIGN.md section 8); the endpoint/domain monitor (M4) also runs in every other W1/W2 check.")
+TRUST2 = ("Trusted: Go runtime/synctest, badger, herumi BLS (incl. Recover), the wallet libraries, protobuf. The DKG transport is simulated (see real_vs_stub in the evidence); "
+          "OnExecute iterates a Go map when sending its contributions, which the simulator cannot own: faults are therefore addressed by message identity and oracles use only order-independent facts.")
+TEXTS["C12"] = dict(
+    technique="deterministic simulation of a cluster: real DKG services of up to 9 instances over a simulated transport, seeded (n,t)/id-set/initiator/reply-order space, threshold-signature oracle",
+    level_text="Seeded search over cluster configurations: (n,t) walks the complete table 1<=n<=7 x 0<=t<=n+1 (42 pairs), id sets small/large/near 2^64/sparse, any initiating "
+               "instance incl. non-participants, drawn participant order, commit replies released in drawn order by the scheduler, tampered commit replies. After a reported success every "
+               "participant's wallet store is read back and compared (composite key = returned key, vector, threshold, participants, share = vector at own id), every t-subset of partial "
+               "signatures from the real signers must recover a valid composite signature and no (t-1)-subset may, listing and signing work at once and after a restart; every t outside "
+               "n/2<t<=n must be refused before any message is sent.",
+    level_note=TRUST2)
+TEXTS["C13"] = dict(
+    technique="fault injection in deterministic cluster simulation: complete message x fault matrix on the simulated transport (loss, error, duplicate, 9 contribution tamperings in both directions) + seeded double faults",
+    level_text="The single-fault matrix over every prepare/execute/contribute message (request and reply) of generations with (n,t) in {(2,2),(3,2),(3,3),(4,3),(5,3)} (+(5,4),(7,4) thorough) is "
+               "enumerated completely (642 / 1420 cases) against real process services and receiver handlers; seeded runs add double faults on drawn id sets. Oracle: error to the client, no "
+               "account in any instance's wallet store or cache, no panic in any handler call, and a subsequent fault-free generation under another name succeeds with a consistent key.",
+    level_note=TRUST2 + " Faults during commit are outside this property (C13 covers prepare/execute/contribute).")
 NOT_APPLICABLE = {}
